@@ -20,6 +20,8 @@ from harness.wire import RecordingWriter
 
 PROP = "C05"
 LEVEL = "exploration"
+TECHNIQUE = 'bit-exact before/after snapshot of observable state + emission monitor + differential replay of the history without its rejected calls'
+LEVEL_TEXT = 'Held on every entry point failing at first/middle/last validation step from random reachable states, apart from the two listed known findings.'
 RULE = ("from states reached by random valid prefixes (tool/coolant on or off, random user bounds, "
         "relative or absolute mode, partially unknown axes) every single-command entry point is "
         "called with arguments failing at its first, middle or last validation step (bounds on each "
